@@ -342,6 +342,24 @@ func runWorkers(propv, tierv string, seedv uint64, engine string) int {
 	total := newWorkerOut(-1)
 	states := map[uint64]bool{}
 	crashed := 0
+	// regression corpus: replays of defects that were found and fixed; a fixed
+	// entry suppresses nothing, so a returning defect is reported again.
+	regs, _ := filepath.Glob(filepath.Join(verifDir, "regress", *prop+"-*.json"))
+	sort.Strings(regs)
+	for _, rf := range regs {
+		outb, _ := exec.Command(os.Args[0], "replay", rf).CombinedOutput()
+		total.Extra["regression_replays"]++
+		if strings.Contains(string(outb), "VIOLATION property="+*prop) {
+			b, err := os.ReadFile(rf)
+			var rp sim.Replay
+			if err == nil && json.Unmarshal(b, &rp) == nil && rp.Viol != nil {
+				rp.Tier = *tier
+				total.Viol = append(total.Viol, rp)
+				total.ViolCount[rp.Viol.Sig]++
+				total.Extra["regression_replays_failed"]++
+			}
+		}
+	}
 	for i := 0; i < tc.workers; i++ {
 		r := <-ch
 		if r.err != nil {
